@@ -102,6 +102,32 @@ Proof. exact head_meaning. Qed.
 Print Assumptions C11_arrow_size_meaning.
 
 (* ---------------------------------------------------------------------------------------------- *)
+(* rows: ONE frame used repeatedly (Round 2)                                                        *)
+(* ---------------------------------------------------------------------------------------------- *)
+
+(* A frame over Arrow tables holds its rows as a one-shot iterator until something materializes it.  For ANY
+   sequence of calls arrow(size) / rowcount / materialize() on the same frame object, every call answers from the
+   full row list E = limit size0 (all rows of all tables): the k-th export is to_arrow_cols E ncols size whatever
+   was called before (so the second export equals the first), rowcount is |E|.  Premise: the process_table oracle.
+   Composed with C11_round_trip_rows, every exported table reads back as [head size E]. *)
+Theorem C11_repeated_export_lazy :
+  forall (C T : Type) (process_table : T -> N -> list (list C)) (rows_of : T -> list (list C)),
+  (forall t b, (1 <= b)%N -> process_table t b = rows_of t) ->
+  forall (tables : list T) (size0 : option N) (ncols : nat) (ops : list fop),
+  frun process_table ncols (FLazy (from_arrow_iter tables size0)) ops =
+  map (expected_out (limit size0 (concat (map rows_of tables))) ncols) ops.
+Proof. exact repeated_export_lazy. Qed.
+Print Assumptions C11_repeated_export_lazy.
+
+(* The same for a list-backed frame (no premise: the iterator is not involved). *)
+Theorem C11_repeated_export_list :
+  forall (C T : Type) (process_table : T -> N -> list (list C)),
+  forall (rows : list (list C)) (ncols : nat) (ops : list fop),
+  frun process_table ncols (FList rows) ops = map (expected_out rows ncols) ops.
+Proof. exact repeated_export_list. Qed.
+Print Assumptions C11_repeated_export_list.
+
+(* ---------------------------------------------------------------------------------------------- *)
 (* column typing (over the tables regenerated from the running code into Gen/C11_ArrowMap.v)        *)
 (* ---------------------------------------------------------------------------------------------- *)
 
@@ -135,6 +161,45 @@ Theorem C11_type_round_trip_decimal :
             from_arrow_field false f = Ok (mkCol nm ty_DECIMAL None (Some p) (Some s) (fnullable f)).
 Proof. exact type_round_trip_decimal. Qed.
 Print Assumptions C11_type_round_trip_decimal.
+
+(* Round 2: the column OBJECT.  FlatColumn.__init__ may rewrite the attributes it is given ("validate decimal
+   properties"); the model of that block is [ctor_decimal] / [flat_column] / [construct], and FlatColumn.from_arrow
+   ends in the same constructor ([from_arrow_field] goes through [flat_column]).
+   (1) the closed form agrees with every probe of the live constructor (table regenerated on every run) ... *)
+Theorem C11_ctor_model_matches_live_constructor :
+  forall (p s : option Z) (got : option (option Z * option Z)),
+  In ((p, s), got) ctor_dec_probes -> got = Some (ctor_decimal p s).
+Proof. exact ctor_model_matches_probes. Qed.
+Print Assumptions C11_ctor_model_matches_live_constructor.
+
+(* (2) ... the probes cover every 0 <= s <= p <= 38, p >= 1, given as attributes and as the type name
+   "DECIMAL(p,s)", and on each the live constructor built precision p and scale s ... *)
+Theorem C11_ctor_keeps_decimal_parameters_on_grid :
+  forall p s : Z, (1 <= p <= 38)%Z -> (0 <= s <= p)%Z ->
+  In ((Some p, Some s), Some (Some p, Some s)) ctor_dec_probes /\
+  In ((p, s), Some (Some p, Some s)) ctor_dec_byname_probes.
+Proof. exact ctor_grid_probed. Qed.
+Print Assumptions C11_ctor_keeps_decimal_parameters_on_grid.
+
+(* (3) ... hence DECIMAL(p, s) AS ASKED FOR is built with that precision and scale, maps to an Arrow type, and
+   that maps back (through the constructor again) to DECIMAL(p, s). *)
+Theorem C11_requested_decimal_round_trip :
+  forall (p s : Z) (nm : list N) (nl : bool),
+  (1 <= p <= 38)%Z -> (0 <= s <= p)%Z ->
+  construct (mkCol nm ty_DECIMAL None (Some p) (Some s) nl) = mkCol nm ty_DECIMAL None (Some p) (Some s) nl /\
+  exists f, arrow_field (construct (mkCol nm ty_DECIMAL None (Some p) (Some s) nl)) = Ok f /\ fname f = nm /\
+            from_arrow_field false f = Ok (mkCol nm ty_DECIMAL None (Some p) (Some s) (fnullable f)).
+Proof. exact requested_decimal_round_trip. Qed.
+Print Assumptions C11_requested_decimal_round_trip.
+
+(* An Arrow field of the decimal type DECIMAL maps to (any p, s) is described as DECIMAL(p, s), name and
+   nullability carried: what a frame built over an Arrow table reports for a decimal column. *)
+Theorem C11_arrow_decimal_described :
+  forall (p s : Z) (nm : list N) (nl : bool) (i : N),
+  assoc ty_DECIMAL top_table = Some (TmDecimal i) ->
+  from_arrow_field false (mkField nm (ADec i p s) nl) = Ok (mkCol nm ty_DECIMAL None (Some p) (Some s) nl).
+Proof. exact arrow_decimal_described. Qed.
+Print Assumptions C11_arrow_decimal_described.
 
 (* The three statements above as one, over the guard [roundtrippable] (Model/C11.v) that the correspondence
    evaluates on every column the implementation is run on: member type, not excluded, ARRAY with an accepted,
@@ -218,6 +283,16 @@ Example C11_nonvacuous_round_trip :
     [[CInt 1; CStr []]; [CInt 2; CNone]] /\
   to_arrow_cols ([] : list (list cell)) 2 None = [[]; []].
 Proof. repeat split; reflexivity. Qed.
+
+(* Round 2: a lazily backed frame exported twice, limited in between, counted at the end *)
+Example C11_nonvacuous_repeated_export :
+  frun pt_rows 1 (FLazy (from_arrow_iter [[[CInt 1]; [CNone]]; []; [[CInt 3]]] None))
+       [OpArrow None; OpArrow (Some 2%Z); OpArrow None; OpRowcount] =
+  [OutTable [[CInt 1; CNone; CInt 3]]; OutTable [[CInt 1; CNone]]; OutTable [[CInt 1; CNone; CInt 3]]; OutCount 3] /\
+  (exists i, assoc ty_DECIMAL top_table = Some (TmDecimal i)) /\
+  construct (mkCol [100%N] ty_DECIMAL None (Some 38%Z) (Some 10%Z) true) = mkCol [100%N] ty_DECIMAL None (Some 38%Z) (Some 10%Z) true /\
+  construct (mkCol [100%N] ty_DECIMAL None None None true) = mkCol [100%N] ty_DECIMAL None (Some ctor_ctx_prec) (Some (Z.quot (3 * ctor_ctx_prec) 4)) true.
+Proof. vm_compute. repeat split; try reflexivity. eexists; reflexivity. Qed.
 
 (* the witnesses of the fixed findings F-C11-3 and F-C11-4 *)
 Example C11_nonvacuous_types :
